@@ -16,10 +16,10 @@ CONSTANT WMode = "patterns"
 CONSTANT PolyNords = {1}
 CONSTANT PolySegs = {1}
 CONSTANT MNords = {1, 2, 3, 4}
-CONSTANT MaxS = 4
-CONSTANT CntFullS = 3
-CONSTANT KnotS = 1
-CONSTANT MaxFitsSel = "S"
+CONSTANT MaxS = 5
+CONSTANT CntFullS = 4
+CONSTANT KnotS = 2
+CONSTANT MaxFitsSel = "both"
 INIT SInit
 NEXT SNext
 INVARIANT C09c_SupportOK
